@@ -223,6 +223,13 @@ int main (int argc, char **argv) {
     case 'K': sscanf (line + 2, "%127s", callee); break;
     case 'E': snprintf (engs, sizeof (engs), "%s", line + 2); break;
     case 'X':
+      if (ncase % 300 == 299) /* keep the contexts small: loading/linking cost grows with the modules in a context */
+        for (int k = 0; k < 5; k++)
+          if (ctxs[k] != NULL) {
+            if (k > 0) MIR_gen_finish (ctxs[k]);
+            MIR_finish (ctxs[k]);
+            ctxs[k] = NULL;
+          }
       if (ncase++ >= first) run_case (id, text, nbuf, nout, retimg, nstk, callee, engs, so);
       break;
     default: break;
